@@ -24,12 +24,17 @@ RULES = {
     "C31.com_restart": "the word following a transferred word with COM (K28.5) in symbol 0 starts the sequence again; the COM "
                        "word itself, COMs in other symbols, 0xBC data bytes and invalid words do not restart anything early",
     "C31.roundtrip": "descrambler(scrambler(stream)) == stream for the same enable/stall history",
+    "C31.rx_path": "USB3PhysicalLayer receive glue (PIPE rx -> SKP remover -> aligner -> Descrambler -> source): the words at "
+                   "`source` are the link partner's plain words, SKP ordered sets removed, when the wire carries their "
+                   "scrambled form (every 8th run)",
 }
 PROBES = ["com_word_transferred", "com_word_with_data_symbols", "com_word_stalled", "com_in_other_symbol", "com_as_data_sym0",
           "invalid_com_lookalike", "hold_cycles", "stalled_words", "disabled_words", "clear_pulses", "mixed_data_ctrl_words",
-          "long_run_over_2000_words", "chain_runs", "descrambler_runs", "disabled_advance_policy_resolved"]
+          "long_run_over_2000_words", "chain_runs", "descrambler_runs", "disabled_advance_policy_resolved",
+          "rx_path_runs", "rx_path_skp_words", "rx_path_skp_before_data", "rx_path_words_compared"]
 META = {
-    "components_real": ["luna.gateware.usb.usb3.physical.scrambling.Scrambler", "luna.gateware.usb.usb3.physical.scrambling.Descrambler", "luna.gateware.usb.usb3.physical.scrambling.ScramblerLFSR"],
+    "components_real": ["luna.gateware.usb.usb3.physical.scrambling.Scrambler", "luna.gateware.usb.usb3.physical.scrambling.Descrambler", "luna.gateware.usb.usb3.physical.scrambling.ScramblerLFSR",
+                        "luna.gateware.usb.usb3.physical.layer.USB3PhysicalLayer (receive path, every 8th run)"],
     "components_stubbed": ["word producer / consumer (literal per-word stall, gap, enable, hold)",
                            "chain bench: 3 lines of glue (descrambler.sink.valid = scrambler.source.valid & ~hold)"],
     "assumptions": ["held words are filler words without COM in symbol 0 (in the design hold == SKP insertion over logical idle); "
@@ -74,7 +79,36 @@ def _word(rng, kind):
     raise ValueError(kind)
 
 
+RX_EVERY = 8
+
+
+def _gen_rx(rng, tier):
+    """ plain words of a link partner (after one all-COM word that aligns the receiver and restarts the keystream); SKP words
+        (two ordered sets) are dropped in on the wire between them without advancing the partner's LFSR """
+    n = rng.randint(30, 200 if tier == "quick" else 800)
+    skp_rate = rng.choice([0.0, 0.02, 0.06, 0.15])
+    ops = []
+    while len(ops) < n:
+        seg = rng.choice(["data", "data", "zeros", "mixed", "com"])
+        for _ in range(rng.randint(1, 25)):
+            if rng.random() < skp_rate:
+                ops.append({"skp": rng.choice([1, 1, 1, 2])})
+            kind = seg if seg != "mixed" else rng.choice(["data", "zeros"])
+            if kind == "com":
+                # on a real link COM only ever leads an ordered set as COM x4 (TS1/TS2); the word aligner keys on that
+                kind = rng.choice(["com4", "data", "data"])
+            if kind == "com4":
+                ops.append({"d": usb3.COM_WORD[0], "c": 0xF})
+            elif kind == "zeros":
+                ops.append({"d": 0, "c": 0})
+            else:
+                ops.append({"d": rng.getrandbits(32), "c": 0})
+    return {"engine": ENGINE, "config": {"dut": "rx_path", "scramble": 0 if rng.random() < 0.1 else 1}, "ops": ops}
+
+
 def gen(rng, tier, index):
+    if index % RX_EVERY == 5:
+        return _gen_rx(rng, tier)
     dut = rng.choice(["scrambler", "scrambler", "descrambler", "chain", "chain"])
     long_run = rng.random() < 0.05
     n = rng.randint(2000, 6000) if long_run else rng.randint(40, 400 if tier == "quick" else 1500)
@@ -387,8 +421,118 @@ class _Actor:
         return False
 
 
+class _PipeStub:
+    """ signal-only PIPE PHY stand-in (names and widths as luna.gateware.interface.pipe.PIPEInterface(width=4)) """
+
+    def __init__(self):
+        from amaranth import Signal
+        for name, width in [("reset", 1), ("clk", 1), ("pclk", 1), ("tx_data", 32), ("tx_datak", 4), ("rx_data", 32), ("rx_datak", 4),
+                            ("phy_mode", 2), ("elas_buf_mode", 1), ("rate", 1), ("power_down", 2), ("tx_deemph", 2), ("tx_margin", 3),
+                            ("tx_swing", 1), ("tx_detrx_lpbk", 1), ("tx_elec_idle", 1), ("tx_compliance", 1), ("tx_ones_zeros", 1),
+                            ("rx_polarity", 1), ("rx_eq_training", 1), ("rx_termination", 1), ("phy_status", 1), ("rx_valid", 1),
+                            ("rx_status", 3), ("rx_elec_idle", 1), ("power_present", 1)]:
+            setattr(self, name, Signal(width, name=f"pipe_{name}"))
+
+
+def _rx_bench():
+    def factory():
+        from luna.gateware.usb.usb3.physical.layer import USB3PhysicalLayer
+        phy = _PipeStub()
+        dut = USB3PhysicalLayer(phy=phy, sync_frequency=1e6)
+        ins = {"rx_data": phy.rx_data, "rx_datak": phy.rx_datak, "scramble": dut.enable_scrambling, "ready": dut.source.ready,
+               "rx_elec_idle": phy.rx_elec_idle}
+        outs = {"o_valid": dut.source.valid, "o_data": dut.source.data, "o_ctrl": dut.source.ctrl}
+        return make_bench(dut, clocks={"ss": 1 / 125e6, "sync": 1 / 1e6}, main="ss", ins=ins, outs=outs)
+    return cached_bench(("c31", "rx_path"), factory)
+
+
+SKP_WORD = (0x3C3C3C3C, 0xF)
+RX_LEAD = 4         # filler words before the aligning all-COM word
+RX_TAIL = 14        # scrambled idle words behind the script (pipeline drain; not compared)
+
+
+class _RxActor:
+    """ the link partner's transmitter on the PIPE receive pins of the real physical layer """
+
+    def __init__(self, scn, viol, probes):
+        self.viol, self.pr = viol, probes
+        self.scramble = scn["config"]["scramble"]
+        ref = usb3.ScramblerRef()
+        self.wire, self.want = [(0, 0)] * RX_LEAD, []
+        plain = [{"d": usb3.COM_WORD[0], "c": 0xF}] + list(scn["ops"]) + [{"d": 0, "c": 0}] * RX_TAIL
+        self.core = 1 + sum(1 for op in scn["ops"] if "skp" not in op)
+        prev_skp = False
+        for op in plain:
+            if "skp" in op:
+                self.wire.extend([SKP_WORD] * op["skp"])
+                probes["rx_path_skp_words"] += op["skp"]
+                prev_skp = True
+                continue
+            d, c = op["d"], op["c"]
+            is_com = bool(c & 1) and (d & 0xFF) == COMW
+            w = usb3.scramble_word(ref, d, c) if self.scramble else d
+            if is_com:
+                ref.reset()
+            elif prev_skp and c == 0 and self.scramble:
+                probes["rx_path_skp_before_data"] += 1
+            prev_skp = False
+            self.wire.append((w, c))
+            self.want.append((d, c))
+        self.i = 0
+        self.got = 0
+        self.synced = False
+        self.finished = False
+        self.words = 0
+
+    def drive(self, t):
+        d, c = self.wire[self.i] if self.i < len(self.wire) else (0, 0)
+        return {"rx_data": d, "rx_datak": c, "scramble": self.scramble, "ready": 1, "rx_elec_idle": 0}
+
+    def observe(self, t, o):
+        self.i += 1
+        if o["o_valid"]:
+            w = (o["o_data"], o["o_ctrl"])
+            if not self.synced and w == self.want[0]:
+                self.synced = True
+            if self.synced and self.got < len(self.want):
+                exp = self.want[self.got]
+                if w != exp and self.got < self.core:
+                    what = "skp_leaked" if w == SKP_WORD else "mismatch"
+                    self.viol.add("C31.rx_path", t, f"[rx_path] word #{self.got} behind the aligning COM word is {w[0]:#010x}/{w[1]:#x}, "
+                                  f"the link partner sent {exp[0]:#010x}/{exp[1]:#x}", what=what, scramble=self.scramble)
+                    return True
+                self.got += 1
+                self.words += 1
+                self.pr["rx_path_words_compared"] += 1
+        if self.i >= len(self.wire) + 4:
+            self.finished = True
+            if self.got < self.core:
+                self.viol.add("C31.rx_path", t, f"[rx_path] only {self.got} of {self.core} words reached `source`", what="lost",
+                              scramble=self.scramble)
+            return True
+        return False
+
+
+def _run_rx(scn):
+    bench = _rx_bench()
+    viol = Violations()
+    probes = {p: 0 for p in PROBES}
+    actor = _RxActor(scn, viol, probes)
+    log = bench.run([actor], max_cycles=len(actor.wire) + 10)
+    if not viol and not actor.finished:
+        raise RuntimeError("script did not finish")
+    probes["rx_path_runs"] += 1
+    faults = {"ready_stall": 0, "invalid_word_gap": 0, "hold": 0, "clear": 0, "skp_word_in_rx_stream": probes["rx_path_skp_words"]}
+    sig = hashlib.blake2b(repr(("rx_path", scn["config"]["scramble"], min(probes["rx_path_skp_words"], 4),
+                                min(probes["rx_path_skp_before_data"], 3))).encode(), digest_size=8).hexdigest()
+    return {"violations": viol.items, "cycles": log.cycles, "faults": faults, "probes": probes, "sig": sig,
+            "nontrivial": actor.words > 8, "digest": log.digest, "fsm": len(log.fsm_vectors)}
+
+
 def run(scn):
     kind = scn["config"]["dut"]
+    if kind == "rx_path":
+        return _run_rx(scn)
     bench = _bench(kind, scn["config"].get("iv", 0xFFFF))
     viol = Violations()
     probes = {p: 0 for p in PROBES}
@@ -413,6 +557,8 @@ def run(scn):
 def shrink_candidates(scn):
     import copy
     ops = scn["ops"]
+    if scn["config"]["dut"] == "rx_path":
+        return
     for i, op in enumerate(ops):
         for k in ("gap", "stall", "hold"):
             if k in op:
